@@ -123,7 +123,7 @@ Proof. exact choice_axes_spec. Qed.
 Print Assumptions C18_code_reduced_axes_are_the_dense_discrete_choices.
 
 (* ---- the choice axes of a model without filter-restricted variables --------------------------------------------- *)
-From LCM Require Import Spec.Lang Gen.DiscreteNoShocks Gen.SolveDiscrete Gen.SimulateKernels Proofs.C18_AxesFilterFree.
+From LCM Require Import Spec.Lang Gen.DiscreteNoShocks Gen.SolveDiscrete Gen.SimulateKernels Proofs.C18_AxesFilterFree Proofs.C18_AxesSimulation.
 (* variable_info lists discrete states, discrete choices, continuous states, continuous choices (all dense, none      *)
 (* auxiliary); states and choices have different names.  The regenerated axis functions give: for the solver the axes  *)
 (* |dst| .. |dst|+|dch|-1, for the simulation 1 .. |dch|; none without a dense discrete choice; and the regenerated     *)
@@ -151,3 +151,19 @@ Proof.
   - intros values. now apply policy_calculator_of_filter_free.
 Qed.
 Print Assumptions C18_code_reductions_of_a_model_without_filters.
+
+(* with filter-restricted variables (one sparse leading axis "__sparse__"): the solver reduces over 1+|dst| .. 1+|dst|+|dch|-1 *)
+Theorem C18_code_choice_axes_of_a_model_with_filters :
+  forall rs rc dst dch cst cch : list (string * grid),
+  (rs ++ rc)%list <> [] -> NoDup (map fst (rc ++ dst ++ dch ++ cst ++ cch)) ->
+  ~ In "__sparse__"%string (map fst (rc ++ dch ++ cch)) ->
+  determine_dense_discrete_choice_axes (vi_sparse rs rc dst dch cst cch)
+  = match dch with [] => None | _ => Some (seq (1 + length dst) (length dch)) end /\
+  forall is_last cc seg,
+  get_solve_discrete_problem (vi_sparse rs rc dst dch cst cch) is_last (Some seg) cc tt
+  = solve_discrete_problem_no_shocks cc (match dch with [] => None | _ => Some (seq (1 + length dst) (length dch)) end) (Some seg) tt.
+Proof.
+  intros rs rc dst dch cst cch H1 H2 H3. split; [now apply solver_axes_with_filters|].
+  intros is_last cc seg. now apply solve_discrete_with_filters.
+Qed.
+Print Assumptions C18_code_choice_axes_of_a_model_with_filters.
